@@ -40,9 +40,10 @@ def arm_events(prog, f, vf, arm, obj_kind="Object"):
             if g is not None and g.full and not g.is_closure and not g.from_expansion \
                     and g.module.startswith("eval"):
                 ev.add("call." + res.split("::")[-1])
-        for s in f.stmts(bb):
-            if s[0] == "=" and s[2][0] == "agg" and s[2][1].get("k") == "adt" and s[2][1]["adt"] == ERR:
-                v = s[2][1]["variant"]
+        # (errors built here, or by a closure/constructor handed to a
+        # combinator called here: `.ok_or_else(|| Error::PropNotFound{..}.at(loc))`)
+        for a_, v in ops.block_constructs(prog, f, bb):
+            if a_ == ERR:
                 ev.add("err." + v)
     return ev
 
